@@ -706,7 +706,7 @@ def build_cases(ctx):
         for _ in range(400):
             sigs.append(rng.choice(sig_variants(rng.choice(shapes(6)), rng, False)))
         kinds_for = lambda i: CALLABLES
-        calls_per = 3
+        calls_per = 1
     for i, sig in enumerate(sigs):
         for kind in kinds_for(i):
             ret = 'int' if (kind != 'init' and rng.random() < 0.25) else ''
@@ -717,7 +717,8 @@ def build_cases(ctx):
             for _ in range(calls_per):
                 n = rng.choice([0, 1, 1, 2, 2, 3, 3, 4, 5])
                 args = gen_args(rng, names, n, wellformed=rng.random() < 0.85)
-                for text, col, prev, cur, mode in cursor_cases(args, callee, rng, all_slots=not ctx.quick):
+                for text, col, prev, cur, mode in cursor_cases(args, callee, rng,
+                                                               all_slots=(not ctx.quick) and i % 4 == 0):
                     cases.append({'kind': kind, 'sig': sig, 'dsig': dsig, 'bound': bound, 'fname': fname,
                                   'ret': ret, 'def_src': def_src, 'callee': callee,
                                   'src': pre + text, 'line': line, 'col': col,
@@ -736,8 +737,19 @@ def dedupe(cases):
     return out
 
 
-def run_real(cases):
-    """one Script per distinct source (jedi caches parse results), all cursor positions"""
+def _real_tuple(t):
+    return real_case(*t)
+
+
+def run_real(cases, jobs=1):
+    """the real code on every case (thorough tier: spread over processes)"""
+    if jobs > 1 and len(cases) > 5000:
+        import multiprocessing
+        with multiprocessing.Pool(jobs) as pool:
+            res = pool.map(_real_tuple, [(c['src'], c['line'], c['col']) for c in cases], chunksize=250)
+        for c, r in zip(cases, res):
+            c['real'] = r
+        return cases
     for c in cases:
         c['real'] = real_case(c['src'], c['line'], c['col'])
     return cases
@@ -996,12 +1008,20 @@ def stream_probes(ctx):
         ('def f(a, **b): pass\n', 'f', 'f(1, a=', [('pos', '1', None)], {'t': 'kwOpen', 's': 'a'}),
         ('def f(a, /, **b): pass\n', 'f', 'f(1, a=', [('pos', '1', None)], {'t': 'kwOpen', 's': 'a'}),
     ]
+    # regression inputs: corpus/C11/*.json  {"probes": [[def_src, callee, call, prev_specs, cur], ...]}
+    import glob
+    import os
+    for p in sorted(glob.glob(os.path.join(common.CORPUS_DIR, 'C11', '*.json'))):
+        with open(p, encoding='utf-8') as f:
+            for d, ce, call, prev, cur in json.load(f).get('probes', []):
+                probes.append((d, ce, call, [tuple(a) for a in prev], cur))
     objs = {}
     for def_src, callee, call, prev, cur in probes:
         src = def_src + call
-        c = {'kind': 'function', 'def_src': def_src, 'callee': callee, 'src': src, 'line': 2, 'col': len(call),
+        c = {'kind': 'function', 'def_src': def_src, 'callee': callee, 'src': src,
+             'line': def_src.count('\n') + 1, 'col': len(call),
              'prev_specs': prev, 'cur': cur, 'mode': 'prefix', 'feature': 'plain'}
-        c['real'] = real_case(src, 2, len(call))
+        c['real'] = real_case(src, c['line'], len(call))
         run_oracle(ctx, c, objs)
     # F12: `__a` is reported positional-only and renamed
     def_src = 'def f(__a, b): pass\n'
@@ -1074,7 +1094,7 @@ def run(ctx):
         rng = ctx.subrng('trim')
         corpus_n = sum(1 for c in cases if c.get('corpus'))
         cases = cases[:corpus_n] + rng.sample(cases[corpus_n:], 2400 - corpus_n)
-    run_real(cases)
+    run_real(cases, jobs=1 if ctx.quick else 12)
     reqs = [request_of(c) for c in cases]
     metas = [('case', c, None) for c in cases]
     stream_kinds(ctx, reqs, metas)
